@@ -160,8 +160,25 @@ def stepSlot (o : Ops) (s : Slot o) (op : String) (args : List String) : Slot o 
 def crcLine (l1 : Bytes) (s : UInt32) : String :=
   s!"{hexOfBytes l1} | s={hexOfNat32 s.toNat} d={hexOfBytes (Crc32c.final s)}"
 
+def fnv1a (bs : List UInt8) : UInt64 :=
+  bs.foldl (fun h b => (h ^^^ b.toUInt64) * 0x100000001b3) 0xcbf29ce484222325
+
+def hex64u (x : UInt64) : String :=
+  String.ofList ((List.range 16).map fun i => hexDigit ((x.toNat >>> (4 * (15 - i))) % 16))
+
+def summary (b : Bytes) : String :=
+  let n := b.length
+  s!"len={n} fnv={hex64u (fnv1a b)} tail={hexOfBytes (b.drop (n - 64))}"
+
 def step (st : St) (toks : List String) : St × String :=
   match toks with
+  | ["pbkdf2sum", P, S, c, dk] =>
+    match bytesOfHex P, bytesOfHex S, c.toNat?, dk.toNat? with
+    | some P, some S, some c, some dk =>
+      -- long outputs: the Spec only (the C-shaped model rewrites its whole output list per block, quadratic)
+      let spec := Percival.Spec.Pbkdf2.pbkdf2Sha256 P S c dk
+      (st, s!"{summary spec} | same")
+    | _, _, _, _ => (st, "bad-op")
   | ["pbkdf2", P, S, c, dk] =>
     match bytesOfHex P, bytesOfHex S, c.toNat?, dk.toNat? with
     | some P, some S, some c, some dk =>
